@@ -4,9 +4,9 @@ package main
 
 import (
 	"fmt"
-	"sort"
 	"go/constant"
 	"go/types"
+	"sort"
 	"strconv"
 	"strings"
 
@@ -877,6 +877,11 @@ func (c *FnCtx) evCall(x *eCall, env *evalEnv) *Val {
 			if c.isIface(v.T) {
 				return c.mk(intT, app("ival", v.S))
 			}
+			if v.T != nil {
+				if _, isSl := types.Unalias(v.T).Underlying().(*types.Slice); isSl {
+					return c.mk(intT, app("s_arr", v.S)) // slice: identity of its backing array
+				}
+			}
 			return c.mk(intT, v.S)
 		case "tag":
 			v := c.ev(x.args[0], env)
@@ -924,7 +929,13 @@ func (c *FnCtx) evCall(x *eCall, env *evalEnv) *Val {
 			if env.old != nil && env.old.nextRef != "" {
 				pre = env.old.nextRef
 			}
-			return c.mk(boolT, or(eq(app("s_arr", v.S), "0"), and(app(">=", app("s_arr", v.S), pre), app("<", app("s_arr", v.S), env.st.nextRef))))
+			r := v.S // maps, pointers: the reference itself
+			if v.T != nil {
+				if _, isSl := types.Unalias(v.T).Underlying().(*types.Slice); isSl {
+					r = app("s_arr", v.S)
+				}
+			}
+			return c.mk(boolT, or(eq(r, "0"), and(app(">=", r, pre), app("<", r, env.st.nextRef))))
 		case "fresh":
 			// fresh(p): p was allocated during this call
 			v := c.ev(x.args[0], env)
@@ -1198,6 +1209,8 @@ func (c *FnCtx) mapLen(st *State, m *Val) Term {
 		c.declare(f, fmt.Sprintf("(declare-fun %s ((Array %s Bool)) Int)", f, c.sortOf(K)))
 		// the empty map has length 0
 		c.asserts = append(c.asserts, eq(app(f, fmt.Sprintf("((as const (Array %s Bool)) false)", c.sortOf(K))), "0"))
+		// a map holding some key is not empty
+		c.asserts = append(c.asserts, fmt.Sprintf("(forall ((d (Array %s Bool)) (k %s)) (! (=> (select d k) (> (%s d) 0)) :pattern ((%s d) (select d k))))", c.sortOf(K), c.sortOf(K), f, f))
 	}
 	t := app(f, app("select", d, m.S))
 	key := "maplen:" + t
